@@ -319,6 +319,26 @@ fn two_hop_legs(w: &mut World, obs: &Obs, t: &super::twohop::TwoHop, acc: &mut A
         acc.violation(format!("c06:{sig}:{}", obs.ix.name), detail, json!({"instruction": ix_brief(&obs.ix)}));
     };
     if t.p1 == t.p2 {
+        // one pool named for both legs (the program refuses it today). If such a two-hop ever goes through, the fees of
+        // BOTH recorded computations must have been booked on that pool: protocol share and LP share per input token
+        acc.count("two_hops_over_one_pool_that_succeeded");
+        let (Some(pre), Some(post)) = (obs.pre.data(&t.p1).and_then(codec::Pool::decode), w.bank.data(&t.p1).and_then(codec::Pool::decode)) else { return };
+        let (mut cut, mut growth) = ([0u128; 2], [0u128; 2]);
+        for (begin, steps) in swaps_of(&obs.out) {
+            let k = if begin.a_to_b { 0 } else { 1 };
+            for s in steps.iter() {
+                let c = (s.fee_amount as u128) * (pre.protocol_fee_rate as u128) / 10_000;
+                cut[k] += c;
+                if s.liquidity > 0 {
+                    growth[k] = growth[k].wrapping_add(((s.fee_amount as u128 - c) << 64) / s.liquidity);
+                }
+            }
+        }
+        let got_cut = [post.protocol_fee_owed_a.wrapping_sub(pre.protocol_fee_owed_a) as u128, post.protocol_fee_owed_b.wrapping_sub(pre.protocol_fee_owed_b) as u128];
+        let got_growth = [post.fee_growth_global_a.wrapping_sub(pre.fee_growth_global_a), post.fee_growth_global_b.wrapping_sub(pre.fee_growth_global_b)];
+        if got_cut != cut || got_growth != growth {
+            fail(acc, "one_pool_twice_fees_not_booked", format!("both legs ran on pool {}: the recorded steps give protocol shares {:?} and LP growth {:?} (token A, token B), the pool booked {:?} and {:?}", t.p1, cut, growth, got_cut, got_growth));
+        }
         return;
     }
     let st = |bk: &Bank, k: &Pubkey| bk.data(k).and_then(codec::Pool::decode);
